@@ -17,6 +17,7 @@ def run(facts, tier):
         ("coupon codec", H.coupon_constants, 1, "pair/getLow26/getValue use one key width"),
         ("canonical chains", lambda fa: chains.obligations(fa, ["hll"]), 11, "typed update overloads follow the cross-language canonicalisation contract"),
         ("mode byte", H.mode_byte, 1, "mode byte encode/decode are inverse"),
+        ("tautologies", lambda fa: generic_lints.tautologies(fa, ('hll/',)), 2, "no comparison / assignment / min-max with two identical operands, no if-else with identical arms"),
         ("duplicate operands", lambda fa: generic_lints.duplicate_conjuncts(fa, ('hll/',)), 2, "no logical chain tests the same operand twice (copy-paste of the wrong peer)"),
         ("structural triggers", lambda fa: triggers.obligations(fa, ['AuxHashMap', 'CouponHashSet', 'CouponList', 'Hll4Array']), 9, "the comparisons that decide when to resize / rebuild / compact / purge / promote keep their reviewed boundary (operator and constants)"),
     ):
